@@ -347,6 +347,14 @@ def all_guards(node, fn):
     return res
 
 
+def clone(e):
+    """a private copy of an expression / statement WITHOUT the model's parent links (copy.deepcopy follows them and copies the whole module)"""
+    import ast as _ast
+    if isinstance(e, _ast.expr):
+        return _ast.parse(_ast.unparse(e), mode="eval").body
+    return _ast.parse(_ast.unparse(e)).body[0]
+
+
 def canon(text: str) -> str:
     """canonical spelling of an expression / statement pattern: parsed, comparisons oriented like model._normalise_comparisons does
     for the analysed source, unparsed.  Rules write their patterns in natural orientation and compare canon(pattern) with the source."""
